@@ -55,6 +55,15 @@ def pools(tier):
     P["SMG-plain+stars4"] = (smg_plain + [g for g in st if len(g.atoms) <= 5], smg_plain + [g for g in st if len(g.atoms) <= 5])
     mut = mutations()
     P["symmetric-mutations"] = (mut, mut)
+    # lone-pair descriptors with the placeholder at every position, descriptor-less stars
+    ex = [g for g in U.stars_extra() if E.fully_specified(g)]
+    ex4 = ex + [g for g in st if len(g.atoms) == 4]
+    P["stars-placeholder-positions"] = (ex4, ex4)
+    # 1-WL-equivalent role patterns on symmetric skeletons (both reaction classes)
+    sr = [g for _, g in U.symmetric_reactions()]
+    P["symmetric-reactions"] = (sr, sr)
+    srs = [U.to_kind(g, SCRG) for g in sr]
+    P["symmetric-reactions-SCRG"] = (srs[::3], srs)
     return P
 
 
